@@ -26,6 +26,18 @@ CLAIMS = {
           'Batch==single, list==individual, NDData==arrays, sky==to_pixel are checked on the implementation only (probe, no theorem).',
   'note': 'Trusted: Lean kernel + 3 standard axioms; translator for get_overlap_slices; hand model tied by differential testing only; sqrt, WCS, float summation order not modelled.',
  },
+ 'C04': {
+  'design_ref': 'DESIGN.md §5 C04',
+  'technique': 'Lean 4 correctness proof of an independent connected-component labelling model (min-index propagation) + exhaustive/random correspondence with detect_sources',
+  'text': 'Proved in Lean for every image shape, foreground set and connectivity (no size bound): the model\'s iteration terminates at a sound fixpoint (components_sound_fix, via a strictly '
+          'decreasing Nat potential), two foreground pixels receive the same value iff they are connected through foreground 4/8-neighbours and that value is the least raster index of the component '
+          '(components_partition; the pixel grid is shown to be a finite symmetric graph in gridGraph); the pruning count is the true component size (compSize_counts_component); a pixel is labelled iff it is '
+          'foreground and its component has >= npixels pixels (label_ne_zero_iff, mem_kept); equal labels iff same component (label_eq_iff); labels are exactly 1..N with no gaps (label_le, label_root) in raster '
+          'order of each component\'s first pixel (label_order, kept_sorted); None iff nothing survives (detect_none_iff); NaN, masked and at-threshold pixels are never foreground (foreground_excludes, foreground_strict). '
+          'The model is hand-written; it is tied to detect_sources by exhaustive comparison over all binary images up to 3x3 (x connectivity x npixels) plus random dyadic images with ties/NaN/inf/2-D thresholds/masks, '
+          'comparing label array, areas and slices exactly. detect_threshold and SourceFinder(deblend=False) are probed on the implementation only.',
+  'note': 'Trusted: Lean kernel + standard axioms; the hand model (Model/CCL.lean) tied by differential testing only; scipy.ndimage.label is not assumed (its result is compared); sigma-clipped branch of detect_threshold not modelled.',
+ },
 }
 
 _todo = 'check not built yet in this round (see DESIGN.md §10 build order); not claimed until its machinery is committed'
